@@ -1,3 +1,379 @@
-/- C13 (statements are being added) -/
+/-
+  C13 — schema combinators mean what their parts mean.
+  All statements are about the declarative meaning `Conforms` (equivalent to "validate reports no
+  errors" by C02's `validate_iff_conforms`).
+-/
 import D42.Model.Decl
-import D42.Spec.Conforms
+import D42.Props.C02
+
+namespace D42
+
+/-! ### unions -/
+
+theorem AnyC_append (env : Env) (xs ys : List Schema) (v : PyVal) :
+    AnyC env (xs ++ ys) v ↔ AnyC env xs v ∨ AnyC env ys v := by
+  induction xs with
+  | nil => simp [AnyC]
+  | cons x xs ih => simp [AnyC, ih, or_assoc]
+
+/-- nested unions flatten without changing meaning -/
+theorem flattenAny_meaning (env : Env) : ∀ (ts : List Schema) (v : PyVal),
+    AnyC env (flattenAny ts) v ↔ AnyC env ts v
+  | [], v => by simp [flattenAny]
+  | .any (some us) :: r, v => by
+    simp only [flattenAny, AnyC_append, AnyC, Conforms]
+    rw [flattenAny_meaning env us v, flattenAny_meaning env r v]
+  | .any none :: r, v => by simp [flattenAny, AnyC, flattenAny_meaning env r v]
+  | .scalar k :: r, v => by simp [flattenAny, AnyC, flattenAny_meaning env r v]
+  | .listU L :: r, v => by simp [flattenAny, AnyC, flattenAny_meaning env r v]
+  | .listT t L :: r, v => by simp [flattenAny, AnyC, flattenAny_meaning env r v]
+  | .listE a b c d :: r, v => by simp [flattenAny, AnyC, flattenAny_meaning env r v]
+  | .dict a b :: r, v => by simp [flattenAny, AnyC, flattenAny_meaning env r v]
+  | .alias a b :: r, v => by simp [flattenAny, AnyC, flattenAny_meaning env r v]
+  | .custom a :: r, v => by simp [flattenAny, AnyC, flattenAny_meaning env r v]
+
+/-- **`a | b` accepts exactly the union** -/
+theorem union_meaning (env : Env) (a b : Schema) (v : PyVal) :
+    Conforms env (a.union b) v ↔ Conforms env a v ∨ Conforms env b v := by
+  simp [Schema.union, Conforms, flattenAny_meaning, AnyC]
+
+/-- `schema.any(t1, …, tn)` accepts exactly what some alternative accepts, whatever the nesting -/
+theorem anyCall_meaning (env : Env) (ss : List Schema) (v : PyVal) :
+    Conforms env (.any (some (flattenAny ss))) v ↔ ∃ s ∈ ss, Conforms env s v := by
+  simp only [Conforms, flattenAny_meaning]
+  induction ss with
+  | nil => simp [AnyC]
+  | cons s ss ih => simp [AnyC, ih]
+
+/-- **alias** accepts exactly what its target accepts -/
+theorem alias_meaning (env : Env) (n : Option Str) (t : Schema) (v : PyVal) :
+    Conforms env (.alias n t) v ↔ Conforms env t v := by simp [Conforms]
+
+/-! ### `d[key]`, iteration -/
+
+/-- `d[key]` is the declared member schema -/
+theorem getItem_spec (fs : List (PyKey × Bool × Schema)) (e : Option Nat) (k : PyKey) (s : Schema) :
+    getItem (.dict (some fs) e) k = .ok s ↔ ∃ f, fs.find? (fun f => f.1 == k) = some f ∧ f.2.2 = s := by
+  unfold getItem
+  cases h : fs.find? (fun f => f.1 == k) <;> simp [h]
+
+theorem getItem_missing (fs : List (PyKey × Bool × Schema)) (e : Option Nat) (k : PyKey)
+    (h : hasField k fs = false) : getItem (.dict (some fs) e) k = .error .keyError := by
+  unfold getItem
+  have : fs.find? (fun f => f.1 == k) = none := by
+    simp only [hasField] at h
+    rw [List.find?_eq_none]
+    intro f hf hk
+    have : fs.any (fun f => f.1 == k) = true := List.any_eq_true.2 ⟨f, hf, hk⟩
+    simp [this] at h
+  simp [this]
+
+/-! ### make_required -/
+
+theorem FieldsC_required (env : Env) (ks : List PyKey) : ∀ (fs : List (PyKey × Bool × Schema)) (kvs : List (PyKey × PyVal)),
+    FieldsC env (fs.map (fun f => (f.1, (if ks.contains f.1 then false else f.2.1), f.2.2))) kvs ↔
+      FieldsC env fs kvs ∧ ∀ f ∈ fs, f.1 ∈ ks → (lookupKey f.1 kvs).isSome
+  | [], kvs => by simp [FieldsC]
+  | (k, o, s) :: fs, kvs => by
+    simp only [List.map_cons, FieldsC, FieldsC_required env ks fs kvs, List.mem_cons, forall_eq_or_imp]
+    cases hl : lookupKey k kvs with
+    | some x =>
+      simp only [Option.isSome_some, implies_true, true_and]
+      exact and_assoc.symm
+    | none =>
+      by_cases hk : k ∈ ks
+      · simp [hk]
+      · simp only [List.contains_eq_mem, hk, decide_false, Bool.false_eq_true, if_false,
+          Option.isSome_none, false_imp_iff, true_and]
+        exact and_assoc.symm
+
+theorem hasField_map_flags (k : PyKey) (g : PyKey × Bool × Schema → Bool) (fs : List (PyKey × Bool × Schema)) :
+    hasField k (fs.map (fun f => (f.1, g f, f.2.2))) = hasField k fs := by
+  simp [hasField, List.any_map, Function.comp_def]
+
+/-- **make_required(d, keys)** accepts exactly the values `d` accepts in which the listed keys are present -/
+theorem makeRequired_meaning (env : Env) (fs : List (PyKey × Bool × Schema)) (e : Option Nat) (ks : List PyKey)
+    (r : Schema) (v : PyVal) (h : makeRequired (.dict (some fs) e) (some ks) = .ok r) :
+    Conforms env r v ↔ Conforms env (.dict (some fs) e) v ∧
+      ∃ kvs, v = .dict kvs ∧ ∀ f ∈ fs, f.1 ∈ ks → (lookupKey f.1 kvs).isSome := by
+  simp only [makeRequired] at h
+  split at h
+  · simp only [Except.ok.injEq] at h; subst h
+    simp only [Conforms,
+      hasField_map_flags _ (fun f => if ks.contains f.1 then false else f.2.1) fs]
+    constructor
+    · rintro ⟨kvs, rfl, hfp, hx⟩
+      obtain ⟨hf, hp⟩ := (FieldsC_required env ks fs kvs).1 hfp
+      exact ⟨⟨kvs, rfl, hf, hx⟩, kvs, rfl, hp⟩
+    · rintro ⟨⟨kvs, rfl, hf, hx⟩, kvs', hk, hp⟩
+      cases hk
+      exact ⟨kvs, rfl, (FieldsC_required env ks fs kvs).2 ⟨hf, hp⟩, hx⟩
+  · simp [DErr] at h
+
+/-- the default (`keys=None`) makes every declared key required -/
+theorem makeRequired_all_meaning (env : Env) (fs : List (PyKey × Bool × Schema)) (e : Option Nat) (v : PyVal) :
+    ∃ r, makeRequired (.dict (some fs) e) none = .ok r ∧
+      (Conforms env r v ↔ Conforms env (.dict (some fs) e) v ∧
+        ∃ kvs, v = .dict kvs ∧ ∀ f ∈ fs, (lookupKey f.1 kvs).isSome) := by
+  refine ⟨_, rfl, ?_⟩
+  have hmem : ∀ f ∈ fs, f.1 ∈ fs.map (·.1) := fun f hf => List.mem_map.2 ⟨f, hf, rfl⟩
+  have hmap : fs.map (fun f => (f.1, false, f.2.2)) =
+      fs.map (fun f => (f.1, (if (fs.map (·.1)).contains f.1 then false else f.2.1), f.2.2)) := by
+    apply List.map_congr_left
+    intro f hf
+    have : (fs.map (·.1)).contains f.1 = true := by
+      rw [List.contains_iff_mem]; exact hmem f hf
+    simp only [this, if_true]
+  rw [hmap]
+  simp only [Conforms,
+    hasField_map_flags _ (fun f => if (fs.map (·.1)).contains f.1 then false else f.2.1) fs]
+  constructor
+  · rintro ⟨kvs, rfl, hfp, hx⟩
+    obtain ⟨hf, hp⟩ := (FieldsC_required env (fs.map (·.1)) fs kvs).1 hfp
+    exact ⟨⟨kvs, rfl, hf, hx⟩, kvs, rfl, fun f hf' => hp f hf' (hmem f hf')⟩
+  · rintro ⟨⟨kvs, rfl, hf, hx⟩, kvs', hk, hp⟩
+    cases hk
+    exact ⟨kvs, rfl, (FieldsC_required env (fs.map (·.1)) fs kvs).2 ⟨hf, fun f hf' _ => hp f hf'⟩, hx⟩
+
+set_option linter.unusedVariables false in
+/-- a key that is not declared is refused -/
+theorem makeRequired_unknown_key (fs : List (PyKey × Bool × Schema)) (ks : List PyKey) (k : PyKey)
+    (hk : k ∈ ks) (hf : hasField k fs = false) (hne : k ≠ PyKey.ellipsis) :
+    makeRequired (.dict (some fs) none) (some ks) = .error .declarationError := by
+  simp only [makeRequired]
+  split
+  · rename_i h
+    have := List.all_eq_true.1 h k hk
+    simp [hf] at this
+  · rfl
+
+/-! ### `d1 + d2` -/
+
+/-- `d1 + d2` is relaxed exactly when either operand is -/
+theorem add_relaxed (fa fb : Option (List (PyKey × Bool × Schema))) (ea eb : Option Nat) :
+    ∃ fs ell, (Schema.dict fa ea).add (.dict fb eb) = some (.dict (some fs) ell) ∧
+      ell.isSome = (ea.isSome || eb.isSome) := by
+  refine ⟨_, _, rfl, ?_⟩
+  cases ea <;> cases eb <;> simp
+
+/-- order-free meaning of a dict schema given as a key table -/
+def DictMeaning (env : Env) (table : PyKey → Option (Bool × Schema)) (relaxed : Bool) (v : PyVal) : Prop :=
+  ∃ kvs, v = .dict kvs ∧
+    (∀ k opt s, table k = some (opt, s) →
+      (match lookupKey k kvs with | some x => Conforms env s x | none => opt = true)) ∧
+    (relaxed = false → ∀ kv ∈ kvs, (table kv.1).isSome)
+
+def tableOf (fs : List (PyKey × Bool × Schema)) : PyKey → Option (Bool × Schema) :=
+  fun k => (fs.find? (fun f => f.1 == k)).map (·.2)
+
+theorem tableOf_nil (k : PyKey) : tableOf [] k = none := by simp [tableOf]
+
+theorem tableOf_cons (f : PyKey × Bool × Schema) (fs : List (PyKey × Bool × Schema)) (k : PyKey) :
+    tableOf (f :: fs) k = if f.1 = k then some f.2 else tableOf fs k := by
+  simp only [tableOf, List.find?_cons]
+  by_cases h : f.1 = k
+  · simp [h]
+  · have : (f.1 == k) = false := by simpa using h
+    simp [this, h]
+
+theorem hasField_eq_tableOf (k : PyKey) : ∀ (fs : List (PyKey × Bool × Schema)),
+    hasField k fs = (tableOf fs k).isSome
+  | [] => by simp [hasField, tableOf]
+  | f :: fs => by
+    have ih := hasField_eq_tableOf k fs
+    simp only [hasField] at ih
+    simp only [hasField, List.any_cons, tableOf_cons, ih]
+    by_cases h : f.1 = k
+    · simp [h]
+    · have : (f.1 == k) = false := by simpa using h
+      simp [this, h]
+
+theorem tableOf_some_mem (fs : List (PyKey × Bool × Schema)) (k : PyKey) (x : Bool × Schema)
+    (h : tableOf fs k = some x) : k ∈ fs.map (·.1) := by
+  have h1 : hasField k fs = true := by rw [hasField_eq_tableOf, h]; rfl
+  simp only [hasField, List.any_eq_true] at h1
+  obtain ⟨f, hf, hk⟩ := h1
+  have : f.1 = k := by simpa using hk
+  exact List.mem_map.2 ⟨f, hf, this⟩
+
+theorem tableOf_none_of_not_mem (fs : List (PyKey × Bool × Schema)) (k : PyKey)
+    (h : k ∉ fs.map (·.1)) : tableOf fs k = none := by
+  cases hx : tableOf fs k with
+  | none => rfl
+  | some x => exact absurd (tableOf_some_mem fs k x hx) h
+
+theorem FieldsC_table (env : Env) (kvs : List (PyKey × PyVal)) : ∀ (fs : List (PyKey × Bool × Schema)),
+    (fs.map (·.1)).Nodup →
+    (FieldsC env fs kvs ↔ ∀ k opt s, tableOf fs k = some (opt, s) →
+      (match lookupKey k kvs with | some x => Conforms env s x | none => opt = true))
+  | [], _ => by simp [FieldsC, tableOf_nil]
+  | (k0, o0, s0) :: fs, hn => by
+    simp only [List.map_cons, List.nodup_cons] at hn
+    obtain ⟨hnot, hn'⟩ := hn
+    have ih := FieldsC_table env kvs fs hn'
+    simp only [FieldsC, ih]
+    constructor
+    · rintro ⟨hh, ht⟩ k opt s hk
+      rw [tableOf_cons] at hk
+      by_cases hkk : k0 = k
+      · subst hkk
+        simp only [if_true, Option.some.injEq, Prod.mk.injEq] at hk
+        obtain ⟨rfl, rfl⟩ := hk
+        exact hh
+      · simp only [hkk, if_false] at hk
+        exact ht k opt s hk
+    · intro h
+      refine ⟨?_, ?_⟩
+      · exact h k0 o0 s0 (by simp [tableOf_cons])
+      · intro k opt s hk
+        have hmem := tableOf_some_mem fs k _ hk
+        have hkk : ¬ k0 = k := by
+          intro e; subst e; exact hnot hmem
+        exact h k opt s (by rw [tableOf_cons]; simp only [hkk, if_false]; exact hk)
+
+/-- a declared dict schema (distinct keys) means its key table -/
+theorem dict_meaning (env : Env) (fs : List (PyKey × Bool × Schema)) (e : Option Nat) (v : PyVal)
+    (hn : (fs.map (·.1)).Nodup) :
+    Conforms env (.dict (some fs) e) v ↔ DictMeaning env (tableOf fs) e.isSome v := by
+  simp only [Conforms, DictMeaning]
+  constructor
+  · rintro ⟨kvs, rfl, hf, hx⟩
+    refine ⟨kvs, rfl, (FieldsC_table env kvs fs hn).1 hf, ?_⟩
+    intro he kv hkv
+    rw [← hasField_eq_tableOf]
+    exact hx (by cases e <;> simp_all) kv hkv
+  · rintro ⟨kvs, rfl, hf, hx⟩
+    refine ⟨kvs, rfl, (FieldsC_table env kvs fs hn).2 hf, ?_⟩
+    intro he kv hkv
+    rw [hasField_eq_tableOf]
+    exact hx (by subst he; rfl) kv hkv
+
+theorem tableOf_map_replace (k : PyKey) (o : Bool) (s : Schema) (k' : PyKey) :
+    ∀ (fs : List (PyKey × Bool × Schema)),
+    tableOf (fs.map (fun f => if f.1 == k then (k, o, s) else f)) k' =
+      if k = k' then (tableOf fs k).map (fun _ => (o, s)) else tableOf fs k'
+  | [] => by simp [tableOf_nil]
+  | f :: fs => by
+    have ih := tableOf_map_replace k o s k' fs
+    simp only [List.map_cons, tableOf_cons, ih]
+    by_cases h1 : f.1 = k
+    · simp only [if_true, h1]
+      by_cases h2 : k = k'
+      · simp [h2]
+      · simp [h2]
+    · have hb : (f.1 == k) = false := by simpa using h1
+      simp only [hb, h1, if_false, Bool.false_eq_true]
+      by_cases h2 : k = k'
+      · subst h2
+        simp [h1]
+      · simp [h2]
+
+theorem tableOf_append_single (x : PyKey × Bool × Schema) (k' : PyKey) :
+    ∀ (fs : List (PyKey × Bool × Schema)),
+    tableOf (fs ++ [x]) k' =
+      (match tableOf fs k' with | some y => some y | none => if x.1 = k' then some x.2 else none)
+  | [] => by simp [tableOf_cons, tableOf_nil]
+  | f :: fs => by
+    have ih := tableOf_append_single x k' fs
+    simp only [List.cons_append, tableOf_cons, ih]
+    by_cases h : f.1 = k'
+    · simp [h]
+    · simp [h]
+
+theorem tableOf_upsert (fs : List (PyKey × Bool × Schema)) (k : PyKey) (o : Bool) (s : Schema) (k' : PyKey) :
+    tableOf (upsertField fs k o s) k' = if k = k' then some (o, s) else tableOf fs k' := by
+  unfold upsertField
+  by_cases hf : hasField k fs = true
+  · simp only [hf, if_true, tableOf_map_replace]
+    by_cases h : k = k'
+    · rw [hasField_eq_tableOf] at hf
+      cases hx : tableOf fs k with
+      | none => rw [hx] at hf; simp at hf
+      | some y => simp [h]
+    · simp [h]
+  · have hf' : hasField k fs = false := by simpa using hf
+    simp only [hf', Bool.false_eq_true, if_false, tableOf_append_single]
+    by_cases h : k = k'
+    · subst h
+      rw [hasField_eq_tableOf] at hf'
+      cases hx : tableOf fs k with
+      | none => simp
+      | some y => rw [hx] at hf'; simp at hf'
+    · simp only [h, if_false]
+      cases tableOf fs k' <;> rfl
+
+theorem upsert_nodup (fs : List (PyKey × Bool × Schema)) (k : PyKey) (o : Bool) (s : Schema)
+    (hn : (fs.map (·.1)).Nodup) : ((upsertField fs k o s).map (·.1)).Nodup := by
+  unfold upsertField
+  by_cases hf : hasField k fs = true
+  · simp only [hf, if_true]
+    have : (fs.map (fun f => if f.1 == k then (k, o, s) else f)).map (·.1) = fs.map (·.1) := by
+      rw [List.map_map]
+      apply List.map_congr_left
+      intro f _
+      by_cases h : f.1 = k
+      · simp [h]
+      · simp [h]
+    rw [this]; exact hn
+  · have hf' : hasField k fs = false := by simpa using hf
+    simp only [hf', Bool.false_eq_true, if_false, List.map_append, List.map_cons, List.map_nil]
+    have hnot : k ∉ fs.map (·.1) := by
+      intro hm
+      have := tableOf_none_of_not_mem fs k
+      rw [hasField_eq_tableOf] at hf'
+      obtain ⟨f, hfm, hk⟩ := List.mem_map.1 hm
+      have : hasField k fs = true := by
+        simp only [hasField, List.any_eq_true]
+        exact ⟨f, hfm, by simpa using hk⟩
+      rw [hasField_eq_tableOf] at this
+      rw [this] at hf'; cases hf'
+    rw [List.nodup_append]
+    refine ⟨hn, by simp, ?_⟩
+    intro a ha b hb
+    simp only [List.mem_singleton] at hb
+    subst hb
+    intro e; subst e; exact hnot ha
+
+/-- the key table of the merge: d2's entry where d2 declares the key, else d1's -/
+theorem mergeFields_table (a b : List (PyKey × Bool × Schema)) (hb : (b.map (·.1)).Nodup) (k : PyKey) :
+    tableOf (mergeFields a b) k = (match tableOf b k with | some x => some x | none => tableOf a k) := by
+  induction b generalizing a with
+  | nil => simp [mergeFields, tableOf_nil]
+  | cons f b ih =>
+    simp only [List.map_cons, List.nodup_cons] at hb
+    obtain ⟨hnot, hb'⟩ := hb
+    have ih' := ih (upsertField a f.1 f.2.1 f.2.2) hb'
+    simp only [mergeFields, List.foldl_cons] at ih' ⊢
+    rw [ih', tableOf_cons, tableOf_upsert]
+    by_cases h : f.1 = k
+    · subst h
+      rw [tableOf_none_of_not_mem b f.1 hnot]
+      simp
+    · simp only [h, if_false]
+
+theorem mergeFields_nodup (a b : List (PyKey × Bool × Schema)) (ha : (a.map (·.1)).Nodup) :
+    ((mergeFields a b).map (·.1)).Nodup := by
+  induction b generalizing a with
+  | nil => simpa [mergeFields] using ha
+  | cons f b ih =>
+    have := ih (upsertField a f.1 f.2.1 f.2.2) (upsert_nodup a f.1 f.2.1 f.2.2 ha)
+    simpa only [mergeFields, List.foldl_cons] using this
+
+/-- **`d1 + d2`** accepts what a dict schema with d1's keys overridden and extended by d2's keys accepts,
+    and is relaxed if either operand is -/
+theorem add_meaning (env : Env) (a b : List (PyKey × Bool × Schema)) (ea eb : Option Nat) (v : PyVal) (r : Schema)
+    (ha : (a.map (·.1)).Nodup) (hb : (b.map (·.1)).Nodup)
+    (h : (Schema.dict (some a) ea).add (.dict (some b) eb) = some r) :
+    Conforms env r v ↔
+      DictMeaning env (fun k => match tableOf b k with | some x => some x | none => tableOf a k)
+        (ea.isSome || eb.isSome) v := by
+  simp only [Schema.add, Option.getD_some, Option.some.injEq] at h
+  subst h
+  rw [dict_meaning env _ _ v (mergeFields_nodup a b ha)]
+  have ht : tableOf (mergeFields a b) =
+      (fun k => match tableOf b k with | some x => some x | none => tableOf a k) :=
+    funext (fun k => mergeFields_table a b hb k)
+  rw [ht]
+  cases ea <;> cases eb <;> exact Iff.rfl
+
+end D42
